@@ -162,6 +162,11 @@ def body(c, stats: Stats):
     _, _, defs = _pool()
     part = c['part']
     if part == 'sound':
+        if not (gens.sugared_well_formed(c['p'], defs) and gens.sugared_well_formed(c['inst'], defs)):
+            # a perturbed instance can carry a pending substitution over a non-schematic pattern (not a pattern of the documented
+            # syntax: the toolkit resolves it, the reference keeps it): outside the domain
+            stats.excluded['sound-ill-formed-perturbed-instance'] += 1
+            return
         p = gens.build_repo(c['p']); inst = gens.build_repo(c['inst'])
         seed = {k: gens.build_repo(v) for k, v in c['seed']}
         res = P.match_single(p, inst, dict(seed))
